@@ -1,7 +1,7 @@
 """C10 -- requests act only on the addressed unit; broadcast acts on all.
 
 route.<frontend>.<framing>.im=<bool>.bc=<bool>: a server hosting two unit contexts with SYMBOLIC distinct ids u1, u2
-(0..247) receives one write request (FC 6, symbolic address/value/transaction id) addressed to a symbolic unit id
+(0..255) receives one write request (FC 6, symbolic address/value/transaction id) addressed to a symbolic unit id
 a (0..255). Asserted:
   a hosted              -> exactly that unit's registers change as the reference model prescribes, the other unit is
                            untouched, the reference response is sent;
@@ -27,9 +27,7 @@ def make_route(frontend, framing, im, bc):
     def route(t: bytes, ids: bytes, b1: bytes, st: bytes) -> bool:
         assume(len(t) == 2 and len(ids) == 3 and len(b1) == 4 and len(st) == 16)
         u1, u2, a = ids[0], ids[1], ids[2]
-        assume(u1 <= 247)
-        assume(u2 <= 247)
-        assume(u1 != u2)
+        assume(u1 != u2)               # hosted ids anywhere in 0..255 (a context built from a dict may host 248..255 too)
         regsA = [st[2 * i] * 256 + st[2 * i + 1] for i in range(4)]
         regsB = [st[8 + 2 * i] * 256 + st[9 + 2 * i] for i in range(4)]
         sA, sB = SL.small_context(hr=regsA), SL.small_context(hr=regsB)
@@ -104,7 +102,7 @@ def obligations(tier):
             for im, bc in combos:
                 out.append(Obl("route.%s.%s.im=%s.bc=%s" % (fe, fr, im, bc), make_route(fe, fr, im, bc), timeout=T,
                                contracts=CONTRACTS[fr], lemmas=LEMMAS[fr],
-                               bounds="%s / %s: hosted unit ids u1 != u2 in 0..247 and addressed unit 0..255 symbolic; FC6 body, tid, both 4-register tables symbolic; ignore_missing_slaves=%s broadcast_enable=%s" % (fe, fr, im, bc)))
+                               bounds="%s / %s: hosted unit ids u1 != u2 in 0..255 and addressed unit 0..255 symbolic; FC6 body, tid, both 4-register tables symbolic; ignore_missing_slaves=%s broadcast_enable=%s" % (fe, fr, im, bc)))
             out.append(Obl("single.%s.%s" % (fe, fr), make_single(fe, fr), timeout=T, contracts=CONTRACTS[fr], lemmas=LEMMAS[fr],
                            bounds="%s / %s single-context mode: addressed unit 0..255 symbolic" % (fe, fr)))
     return out
